@@ -12,7 +12,7 @@ import os
 
 from C06_build import (D, P, R, X, UNITS, Num, fields, frozenmapping, mk_cats, mk_col, mk_di, mk_est, mk_opts, mk_param, mk_params,
                        mk_sim, mk_steps, mk_strs, mk_vh, mk_vl, num_float_mode, property_names, reachable,
-                       real_hash_mode, shash, small, snapshot, unchanged, install_structural_hash)
+                       decide_real, shash, small, snapshot, unchanged, install_structural_hash)
 from pharmpy.model.distributions.symbolic import Distribution
 
 install_structural_hash()
@@ -22,8 +22,10 @@ NU = int(os.environ.get('VH_NU', '2'))              # units used from the table
 DESC = os.environ.get('VH_DESC', 'same')            # ColumnInfo descriptors of a and b: same | free (finding F1)
 NOPT = int(os.environ.get('VH_NOPT', '1'))          # max tool_options entries; 2 = finding F2 isolated
 CATA = int(os.environ.get('VH_CATA', '0'))         # case split: categories kind of object a
-NONES = os.environ.get('VH_NONES', '0') == '1'      # Optional fields: 0 = all set, 1 = None per group (symbolic)
+NONES = os.environ.get('VH_NONES', '0') == '1'
+AFLAGS = tuple(x == '1' for x in os.environ.get('VH_AFLAGS', '1,1').split(','))      # Optional fields: 0 = all set, 1 = None per group (symbolic)
 STRLEN = int(os.environ.get('VH_STRLEN', '2'))      # string length bound
+NAMELEN = int(os.environ.get('VH_NAMELEN', '2'))    # names in the uniqueness obligations: len <= NAMELEN over {a,b}
 NK = int(os.environ.get('VH_NK', '2'))              # dict keys used from C06_build.KEYS
 CATKINDS = tuple(int(x) for x in os.environ.get('VH_CATKINDS', '0,1,3').split(','))
 NA = int(os.environ.get('VH_NA', '2'))              # case split: number of elements of object a
@@ -59,8 +61,7 @@ def eq_obligation(a, b):
         return True
     if not reachable(a, b):
         return True
-    with real_hash_mode(a, b):
-        return _laws(a, b, hash)
+    return decide_real(lambda x, y: _laws(x, y, hash), a, b)
 
 
 def _trans(a, b, c):
@@ -74,8 +75,7 @@ def trans_obligation(a, b, c):
         return True
     if not reachable(a, b, c):
         return True
-    with real_hash_mode(a, b, c):
-        return _trans(a, b, c)
+    return decide_real(_trans, a, b, c)
 
 
 def _nonan(*xs):
@@ -172,7 +172,7 @@ def params_create_unique(n: int, n1: str, n2: str, n3: str, n4: str, via: int) -
     Parameters.create (via 0), Parameters + Parameter (via 1), Parameter + Parameters (2), Parameters + Parameters (3),
     Parameters + [Parameter] (4), replace(parameters=) (5): names unique or ValueError.
     pre: 0 <= n <= MAXN + 1 and 0 <= via <= 5 and (PK < 0 or via == PK)
-    pre: small(n1, 2, 'ab') and small(n2, 2, 'ab') and small(n3, 2, 'ab') and small(n4, 2, 'ab')
+    pre: small(n1, NAMELEN, 'ab') and small(n2, NAMELEN, 'ab') and small(n3, NAMELEN, 'ab') and small(n4, NAMELEN, 'ab')
     post: _ == True
     """
     ps = [P.Parameter.create(x, 0.1) for x in (n1, n2, n3, n4)[:n]]
@@ -241,7 +241,7 @@ def rvs_create_unique(n: int, n1: str, n2: str, n3: str, joint: bool) -> bool:
     """
     RandomVariables.create over a sequence of distributions: all random-variable names unique or ValueError.
     pre: 0 <= n <= 3
-    pre: small(n1, 2, 'ab') and small(n2, 2, 'ab') and small(n3, 2, 'ab')
+    pre: small(n1, NAMELEN, 'ab') and small(n2, NAMELEN, 'ab') and small(n3, NAMELEN, 'ab')
     post: _ == True
     """
     names = [n1, n2, n3][:n]
@@ -431,16 +431,24 @@ def eqhash_EstimationStep(la: int, aint: bool, aev: bool, amax: int, alap: bool,
     tool_options VH_SHAPE[1] entries; b: 0|1 residuals and predictions (bs), 0|1 tool options (bno); VH_NOPT=2:
     exactly 2 tool options in both objects, keys in symbolic order (finding F2 isolated there).
     VH_NONES=1: the Optional int fields and `auto` (flag gi) / the Optional str fields (flag gs) are None;
-    VH_NONES=0: all set.
-    pre: 0 <= la <= STRLEN and 0 <= lb <= STRLEN and ulen(la, ar1, ap1) and ulen(lb, br1, bp1) and 0 <= d <= 3
-    pre: amax >= 1 and bmax >= 1
+    VH_NONES=0: all set.  With VH_NONES=1 residuals, predictions and tool_options are empty in both objects.
+    (a's flags are pinned by VH_AFLAGS then.)
+    pre: NONES or (0 <= la <= STRLEN and 0 <= lb <= STRLEN and ulen(la, ar1, ap1) and ulen(lb, br1, bp1))
+    pre: amax >= 1 and bmax >= 1 and 0 <= d <= 3
     post: _ == True
     """
-    ka, kb = (1 if ak1 else 0), (1 if bk1 else 0)
     na_s, na_o = SHAPE
-    nb_s, nb_o = (1 if bs else 0), (1 if bno else 0)
-    if NOPT == 2:
+    ka = kb = nb_s = nb_o = 0
+    if NONES:
+        na_s = na_o = 0
+        agi, ags = AFLAGS
+    elif NOPT == 2:
         na_o = nb_o = 2
+        nb_s = 1 if bs else 0
+        ka, kb = (1 if ak1 else 0), (1 if bk1 else 0)
+    else:
+        nb_s, nb_o = (1 if bs else 0), (1 if bno else 0)
+        ka, kb = (1 if ak1 else 0), (1 if bk1 else 0)
     oa, ob = _es_opts(0), _es_opts(d)
     a = mk_est(oa['method'], aint, _opt(ags, oa['pum']), aev, _opt(agi, amax), alap, _opt(agi, ais), _opt(agi, ani),
                _opt(agi, aauto), _opt(agi, akeep), mk_strs(na_s, ar1, ''), mk_strs(na_s, ap1, ''),
@@ -712,8 +720,8 @@ def param_replace__twin(name: str, init: float, lower: float, upper: float, fix:
 def params_create_unique__twin(n: int, n1: str, n2: str, n3: str, n4: str, via: int) -> bool:
     """
     pre: 0 <= n <= MAXN + 1 and 0 <= via <= 5 and (PK < 0 or via == PK)
-    pre: small(n1, 2, 'ab') and small(n2, 2, 'ab') and small(n3, 2, 'ab') and small(n4, 2, 'ab')
-    pre: n >= 2 and n1 != n2 and n1 != n3 and n2 != n3 and n4 not in (n1, n2, n3)
+    pre: small(n1, NAMELEN, 'ab') and small(n2, NAMELEN, 'ab') and small(n3, NAMELEN, 'ab') and small(n4, NAMELEN, 'ab')
+    pre: n == 3 and n1 != n2 and n1 != n3 and n2 != n3
     post: _ == True
     """
     return not params_create_unique(n, n1, n2, n3, n4, via)
@@ -722,7 +730,7 @@ def params_create_unique__twin(n: int, n1: str, n2: str, n3: str, n4: str, via: 
 def rvs_create_unique__twin(n: int, n1: str, n2: str, n3: str, joint: bool) -> bool:
     """
     pre: 0 <= n <= 3
-    pre: small(n1, 2, 'ab') and small(n2, 2, 'ab') and small(n3, 2, 'ab')
+    pre: small(n1, NAMELEN, 'ab') and small(n2, NAMELEN, 'ab') and small(n3, NAMELEN, 'ab')
     pre: n >= 2 and n1 != n2 and n1 != n3 and n2 != n3
     post: _ == True
     """
